@@ -11,6 +11,7 @@ CLAIMED = {
     "C03": ("4 (C03)", "shared VolumeMesh queried by interleaved clients incl. boundary extraction, cache drops, reordered + fresh-instance re-runs; oracle RefVolume (brute force over the cell list)"),
     "C05": ("4 (C05)", "stateful histories on containers with twin sparse/dense attributes, rejected operations injected anywhere; oracle RefAttr + sparse-vs-dense lock-step"),
     "C06": ("4 (C06)", "pool of meshes from every producer, clients interleaving copy/merge/transform/edit calls, every mesh compared with an independent float64 model after every call"),
+    "C13": ("4 (C13)", "editing-block histories (cold or warm caches, open block, seeded operation sequence, close, observers on result and passed-in object, second block); oracles: documented counts, topology, area/volume, vertex placement, RefSurface/RefVolume on the result"),
     "C20": ("4 (C20)", "stateful histories on one shared UnionFind and PriorityQueue by several clients, rejected operations injected; oracles RefUF / RefPQ"),
 }
 
